@@ -23,7 +23,12 @@ def make_error(kind: str) -> BaseException:
 
 
 ERROR_CLASS = {"EPIPE": "BrokenPipeError", "ECONNRESET": "ConnectionResetError", "timeout": type(socket.timeout()).__name__,
-               "timeout-once": type(socket.timeout()).__name__}
+               "timeout-once": type(socket.timeout()).__name__,
+               # what the kernel does after a peer's reset (or after a timed-out send on a connection that then goes away):
+               # the first failing write reports the reset, every later one a broken pipe
+               "ECONNRESET-then-EPIPE": "ConnectionResetError", "timeout-then-EPIPE": type(socket.timeout()).__name__}
+# the class any further write fails with, where it differs from the first failure's
+LATER_CLASS = {"ECONNRESET-then-EPIPE": "BrokenPipeError", "timeout-then-EPIPE": "BrokenPipeError"}
 
 
 class Faulty:
@@ -38,6 +43,8 @@ class Faulty:
     def sendall(self, data, *a):  # noqa
         if self.fail_after is not None and self.writes >= self.fail_after and not (self.transient and self.failures):
             self.failures += 1
+            if self.failures > 1 and self.error_kind in LATER_CLASS:
+                raise make_error("EPIPE")
             raise make_error(self.error_kind)
         self.writes += 1
         return super().sendall(data, *a)
@@ -264,7 +271,7 @@ def real_resets(chk: Check, sc: Scratch, nresets: int) -> None:
 def main() -> int:
     chk = Check("C20", "fault_enumeration")
     quick = chk.tier == "quick"
-    errors = ["EPIPE", "ECONNRESET", "timeout", "timeout-once"]
+    errors = ["EPIPE", "ECONNRESET", "timeout", "timeout-once", "ECONNRESET-then-EPIPE", "timeout-then-EPIPE"]
     with Scratch("c20") as sc:
         root = build_site(sc)
         site = driver.Site(root, handlers=driver.HANDLERS_FULL)
@@ -312,7 +319,8 @@ def main() -> int:
                             chk.witness("C20/failure-not-logged-under-its-own-class:%s" % ek,
                                         dict(sample, logged_classes=excs))
                             continue
-                        other = [e for e in excs if e != want and e not in allowed]
+                        # (a later write failing on the same dead connection is that connection's failure too)
+                        other = [e for e in excs if e != want and e not in allowed and e != LATER_CLASS.get(ek)]
                         if other:
                             chk.witness("C20/logged-as-%s" % other[0], dict(sample, logged_classes=excs))
                             continue
@@ -335,7 +343,8 @@ def main() -> int:
              "those the fault-free request logs), /proc/self/fd back to its state, no file finalised unclosed; plus the real "
              "server process (threading and forking) with clients that read r bytes of an 8 MiB document and reset the "
              "connection: every failure logged under its own class with the client address, server still answering, no "
-             "descriptor of the serving process left open on a file of the site; 'timeout-once' fails one write only",
+             "descriptor of the serving process left open on a file of the site; 'timeout-once' fails one write only; "
+             "'X-then-EPIPE' fails the first write with X and every later one with EPIPE (the record of X is what is required)",
         assumptions=["responses written by a subprocess straight to the socket (plaintext script/decompressor output) "
                      "have no Python-level writes to fail; they are driven over TLS, where the server relays the output",
                      "descriptors are compared after gc.collect(); ones closed only by the collector are counted"],
